@@ -40,10 +40,24 @@ inline rc::Gen<std::vector<uint32_t>> runSeq(int w) {
                       });
 }
 
-inline rc::Gen<std::vector<uint32_t>> anySeq(int w) {
+// a few very long runs: run headers of three and four varint bytes (run >= 8192, >= 1048576), 16-bit counters
+inline rc::Gen<std::vector<uint32_t>> longRunSeq(int w) {
+  auto len = rc::gen::weightedOneOf<int>({{6, rc::gen::element(8191, 8192, 8193, 16383, 16384, 16385, 20000, 32767, 32768, 65535, 65536, 65537)}, {1, rc::gen::element(1048575, 1048576, 1048577)}, {3, runLen()}});
+  auto seg = rc::gen::pair(valueOfWidth(w), len);
+  return rc::gen::map(rc::gen::resize(3, rc::gen::container<std::vector<std::pair<uint32_t, int>>>(seg)),
+                      [](const std::vector<std::pair<uint32_t, int>> &s) {
+                        std::vector<uint32_t> v;
+                        size_t total = 0;
+                        for (auto &p : s) { if (total + (size_t)p.second > 2200000) break; v.insert(v.end(), (size_t)p.second, p.first); total += (size_t)p.second; }
+                        return v;
+                      });
+}
+
+inline rc::Gen<std::vector<uint32_t>> anySeq(int w, bool allow_long = true) {
   return rc::gen::weightedOneOf<std::vector<uint32_t>>({
-      {3, runSeq(w)},
-      {1, rc::gen::container<std::vector<uint32_t>>(valueOfWidth(w))},
+      {60, runSeq(w)},
+      {20, rc::gen::container<std::vector<uint32_t>>(valueOfWidth(w))},
+      {1, allow_long ? longRunSeq(w) : runSeq(w)},
   });
 }
 
